@@ -17,7 +17,24 @@ std::string type_name() {
     b = b == std::string::npos ? 0 : b + 4;
     auto e = p.find_first_of(";]", b);
     std::string n = p.substr(b, e - b);
-    return n;
+    // operand aliases (using Alm = EnumOperand<AlmOp, ...>) print as the underlying template: shorten them to
+    // "<enum>#<number of enumerators>" (Alm = AlmOp#16, Alu = AlmOp#8, Moda4 = ModaOp#16, StepZIDS = StepValue#4 ...)
+    // and EnumAllOperand<X> to X
+    auto strip_ns = [](std::string v) {
+        auto c = v.rfind("::");
+        return c == std::string::npos ? v : v.substr(c + 2);
+    };
+    if (n.rfind("EnumOperand<", 0) == 0) {
+        size_t comma = n.find(',');
+        std::string en = strip_ns(n.substr(12, comma - 12));
+        size_t count = 0;
+        for (char ch : n)
+            count += ch == ',';
+        return en + "#" + std::to_string(count);
+    }
+    if (n.rfind("EnumAllOperand<", 0) == 0)
+        return strip_ns(n.substr(15, n.size() - 16));
+    return strip_ns(n);
 }
 
 template <typename T>
